@@ -42,7 +42,7 @@ static void decode_perm(unsigned family, unsigned idx, int *p) {
 
 static __attribute__((noinline)) void perm_case(unsigned i) {
   unsigned variant = v_param(0), family = v_param(1), idx = v_param(2) * perm_cases() + i;
-  if (idx >= (family == 0 ? 96u : 720u)) return;
+  if (i >= perm_cases() || idx >= (family == 0 ? 96u : 720u)) return;
   int p[6]; decode_perm(family, idx, p);
   HexK m;
   m.add_n_vertices(variant == 0 ? 8 : 12);
@@ -131,11 +131,13 @@ extern "C" void harness_c16_reject() {
 // ---------------------------------------------------------------------------------------------------------------------
 // (4) add_cell(8 vertices): first hex on documented positions 0..7, second hex glued onto face g of the first one such that the shared
 //     face is the second hex's local face L in rotation rot (idx = 4 L + rot, 24 cases); idx 24,25: all six faces pre-exist (B_HEX
-//     layout, built by add_face).   param 0 = g, 1 = topologyCheck, 2 = chunk
+//     layout, built by add_face).   param 0 = g, 1 = topologyCheck, 2 = chunk, 3 = cases per query
 enum { VERT_CASES = 4, N_VERT = 26 };
+static inline unsigned vert_cases() { unsigned n = v_param(3); return (n >= 1 && n <= VERT_CASES) ? n : VERT_CASES; }   // param 3 = cases per query
+static __attribute__((noinline)) void vert_end() { v_witness("C16 vertices case end"); }   // one witness call site for both kinds of case
 static __attribute__((noinline)) void vert_case(unsigned i) {
-  unsigned g = v_param(0) % 6, chk = v_param(1), idx = v_param(2) * VERT_CASES + i;
-  if (idx >= N_VERT) return;
+  unsigned g = v_param(0) % 6, chk = v_param(1), idx = v_param(2) * vert_cases() + i;
+  if (i >= vert_cases() || idx >= N_VERT) return;
   HexK m;
   if (idx >= 24) {
     m.add_n_vertices(8);
@@ -149,7 +151,7 @@ static __attribute__((noinline)) void vert_case(unsigned i) {
     check_no_duplicates(s);
     check_hex_all(m, P_CONV | P_ORI | P_HV);
     check_hv_matches_input(m, 0, v);
-    v_witness("C16 vertices-on-existing-faces case end");
+    vert_end();
     return;
   }
   unsigned L = idx / 4, rot = idx % 4;
@@ -177,28 +179,29 @@ static __attribute__((noinline)) void vert_case(unsigned i) {
   int v0[8] = {0, 1, 2, 3, 4, 5, 6, 7};
   check_hv_matches_input(m, 0, v0);
   check_hv_matches_input(m, 1, v);
-  v_witness("C16 vertices case end");
+  vert_end();
 }
 template <unsigned I> struct VertCase { static __attribute__((noinline)) void run() { vert_case(I); } };
 extern "C" void harness_c16_verts() {
-  unsigned sel = v_nondet_below(VERT_CASES);
+  unsigned sel = v_nondet_below(vert_cases());
   dispatch<VertCase, VERT_CASES>(sel);
 }
 
 // ---------------------------------------------------------------------------------------------------------------------
 // (5) inherited operations keep the shape and the convention of the surviving cells.  two-hex base; param 0 = deletion mode,
-//     1 = chunk, 2 = 1: collect_garbage() afterwards
+//     1 = chunk, 2 = 1: collect_garbage() afterwards, 3 = cases per query
 enum { OPS_CASES = 4, N_OPS_C16 = 12 };
+static inline unsigned ops_cases() { unsigned n = v_param(3); return (n >= 1 && n <= OPS_CASES) ? n : OPS_CASES; }   // param 3 = cases per query
 static const unsigned OPS_TABLE[N_OPS_C16][3] = {
   {OP_DEL_C, 0, 0}, {OP_DEL_F, 1, 0}, {OP_SWAP_C, 0, 1}, {OP_SWAP_F, 1, 10},
   {OP_DEL_C, 1, 0}, {OP_DEL_F, 0, 0}, {OP_DEL_F, 8, 0}, {OP_SWAP_F, 0, 5},
   {OP_DEL_E, 0, 0}, {OP_DEL_V, 0, 0}, {OP_SWAP_E, 0, 19}, {OP_SWAP_V, 0, 11}};
 static __attribute__((noinline)) void ops_case(unsigned i) {
-  unsigned mode = v_param(0), idx = v_param(1) * OPS_CASES + i;
-  if (idx >= N_OPS_C16) return;
+  unsigned mode = v_param(0), idx = v_param(1) * ops_cases() + i;
+  if (i >= ops_cases() || idx >= N_OPS_C16) return;
   HexK m;
   set_mode(m, mode);
-  build_hex_base(m, HB_HEX2);
+  build_hex_base(m, HB_HEX2_FAST);
   if (m.n_cells() != 2) return;
   apply_op(m, OPS_TABLE[idx][0], OPS_TABLE[idx][1], OPS_TABLE[idx][2]);
   if (v_param(2)) m.collect_garbage();
@@ -207,7 +210,7 @@ static __attribute__((noinline)) void ops_case(unsigned i) {
 }
 template <unsigned I> struct OpsCase { static __attribute__((noinline)) void run() { ops_case(I); } };
 extern "C" void harness_c16_ops() {
-  unsigned sel = v_nondet_below(OPS_CASES);
+  unsigned sel = v_nondet_below(ops_cases());
   dispatch<OpsCase, OPS_CASES>(sel);
 }
 
